@@ -10,7 +10,9 @@ import (
 	"github.com/plgd-dev/go-coap/v3/message/codes"
 	"github.com/plgd-dev/go-coap/v3/message/pool"
 	coapNet "github.com/plgd-dev/go-coap/v3/net"
+	"github.com/plgd-dev/go-coap/v3/net/responsewriter"
 	"github.com/plgd-dev/go-coap/v3/udp/client"
+	"github.com/plgd-dev/go-coap/v3/udp/coder"
 	udpserver "github.com/plgd-dev/go-coap/v3/udp/server"
 
 	"verif/ev"
@@ -24,7 +26,7 @@ import (
 // and by context cancellation.
 
 type ucfg struct {
-	Op      string // do | observe | ping | idle
+	Op      string // do | observe | ping | idle | full-queue (handler busy, receive queue full, reader loop parked in Process)
 	Intr    string // cancel | close2 | read-error
 	Preempt int
 }
@@ -61,6 +63,14 @@ func udpSessionScenario(c ucfg) *mcx.Scenario {
 				mid := int32(100)
 				cfg.GetMID = func() int32 { mid++; return mid }
 				cfg.LimitClientParallelRequests, cfg.LimitClientEndpointParallelRequests = 2, 2
+				handlerGo, handlerRuns := false, 0
+				if c.Op == "full-queue" {
+					cfg.ReceivedMessageQueueSize = 1
+					cfg.Handler = func(*responsewriter.ResponseWriter[*client.Conn], *pool.Message) {
+						handlerRuns++
+						vrt.WaitUntil("application handler busy", func() bool { return handlerGo })
+					}
+				}
 				cc = client.NewConnWithOpts(session, &cfg)
 				cc.AddOnClose(func() { onClose++ })
 				cc.AddOnClose(func() { onClose++ })
@@ -80,6 +90,27 @@ func udpSessionScenario(c ucfg) *mcx.Scenario {
 						err = cc.Ping(ctx)
 					case "idle":
 						vrt.Recv(cc.Done())
+					case "full-queue":
+						// the peer keeps sending while the application handler is busy: one message in the handler,
+						// one in the queue, the reader loop parked handing over the third
+						for i := 0; i < 3; i++ {
+							m := pool.NewMessage(context.Background())
+							_ = m.SetupGet("/busy", message.Token{0xB0, byte(i)})
+							m.SetType(message.NonConfirmable)
+							m.SetMessageID(int32(7000 + i))
+							raw, errM := m.MarshalWithEncoder(coder.DefaultCoder)
+							if errM != nil {
+								panic(errM)
+							}
+							pc.In = append(pc.In, coapNet.VerifPacket{Data: append([]byte{}, raw...), From: raddr})
+						}
+						vrt.WaitUntil("reader loop parked on the full queue", func() bool { return len(pc.In) == 0 && handlerRuns == 1 })
+						vrt.Quiesce("full queue")
+						for i := 0; i < 2; i++ {
+							vrt.App(fmt.Sprintf("closer%d", i), func() { _ = cc.Close() })
+						}
+						vrt.Recv(cc.Done())
+						handlerGo = true
 					}
 					returned = true
 					result = fmt.Sprint(err)
@@ -93,7 +124,7 @@ func udpSessionScenario(c ucfg) *mcx.Scenario {
 						}
 					})
 				case "close2":
-					for i := 0; i < 2; i++ {
+					for i := 0; i < 2 && c.Op != "full-queue"; i++ {
 						vrt.App(fmt.Sprintf("closer%d", i), func() { _ = cc.Close() })
 					}
 				case "read-error":
@@ -132,6 +163,7 @@ func udpSessionScenario(c ucfg) *mcx.Scenario {
 }
 
 func addUDPSessionScenarios(r *ev.Run, scs *[]*mcx.Scenario) {
+	*scs = append(*scs, udpSessionScenario(ucfg{Op: "full-queue", Intr: "close2", Preempt: ev.Pick(r, 1, 2)}))
 	for _, op := range []string{"do", "observe", "ping", "idle"} {
 		for _, in := range []string{"cancel", "close2", "read-error"} {
 			*scs = append(*scs, udpSessionScenario(ucfg{Op: op, Intr: in, Preempt: ev.Pick(r, 1, 2)}))
